@@ -138,6 +138,25 @@ def run(rep: Report) -> None:
                         rep.check(res.is_zero(), "origin-flow-is-balance-flow", f"{label}: {o.ident} feeding {fed.ident}", where,
                                   f"inflow used by the density update of {fed.ident} - entering flows - reported origin flow "
                                   f"= {nz.show(res)[:300]}", key=f"balflow|{o.cls.split(':')[1]}|c={compact}")
+                    # 4. the flows are reported in the order of the states they belong to: link flows
+                    # like the link densities, origin flows like the queues (w[i] and q_o[i] are the
+                    # same origin's)
+                    try:
+                        ids = [CP.ident_of(x, nz) for a in args_in for x in CP.flatten(w, a, nz)]
+                    except Exception as ex:
+                        rep.undecided("flows", label, where, f"cannot flatten inputs: {ex}")
+                        continue
+                    w_owners = [c[1] for c in ids if c is not None and c[0] == "w"]
+                    rho_owners = []
+                    for c in ids:
+                        if c is not None and c[0] == "rho" and (not rho_owners or rho_owners[-1] != c[1]):
+                            rho_owners.append(c[1])
+                    exp_w = [o.ident for o in origins if o.attrs.get("states")]
+                    exp_l = [l.ident for l in links]
+                    rep.check(w_owners == exp_w and rho_owners == exp_l, "flow-order-matches-state-order", label, where,
+                              f"the flows are reported for links {exp_l} and origins {[o.ident for o in origins]} in this "
+                              f"order, but the function's states list the densities of {rho_owners} and the queues of "
+                              f"{w_owners}", key=f"floworder|c={compact}")
     rep.floor("option combinations", n, 12)
     require_fresh_lookups(rep)
 
